@@ -175,8 +175,10 @@ def run(chk):
             "max_chunks": max(s["chunks"] for s in stats), "max_live": max(s["max_live"] for s in stats),
             "objects_per_chunk_min_max": [min(s["per_chunk"] for s in stats), max(s["per_chunk"] for s in stats)],
             "CHUNK_LIST_SIZE": cls, "page": poolcorr.PAGE}
+        with_head = [s for s in stats if "script_head" in s]
+        with_head.sort(key=lambda s: -s["list_growths"])
         chk.cov["samples"] = [{k: s[k] for k in ("profile", "kind", "obj_sz", "obj_num", "per_chunk", "chunks", "ops", "allocs",
-                                                  "reuse", "list_growths", "sig")} for s in stats[:3]]
+                                                  "reuse", "list_growths", "sig", "script_head")} for s in with_head[:3]]
     # ---- disagreements -------------------------------------------------------
     if bad:
         # prefer a disagreement on which the real code itself breaks the property
